@@ -36,8 +36,8 @@ ASSUMPTIONS = [
 
 
 def plan(tier, seed):
-    n = 120 if tier == "quick" else 3000
-    return [{"name": "cluster-%d" % p, "n": n} for p in range(10 if tier == "quick" else 16)]
+    n = 350 if tier == "quick" else 6000
+    return [{"name": "cluster-%d" % p, "n": n} for p in range(16)]
 
 
 def _close(a, b, tol):
